@@ -191,7 +191,11 @@ fn designates(t: &SemTarget, world: &crate::lsp_sim::World, answer: &Value, b: &
 }
 
 fn at_target(ex: &Exec, t: &SemTarget) -> bool {
-    t.files.iter().all(|(p, text)| ex.client.effective(p) == Some(text))
+    // Every module must also exist on disk: the server asks the file system whether an
+    // import exists, so a module that lives only in an editor buffer cannot be imported -
+    // a workspace state the generated histories never produce (only a minimisation
+    // candidate could) and that the statement's "accepted program" does not cover.
+    t.files.iter().all(|(p, text)| ex.client.effective(p) == Some(text) && ex.client.disk.contains_key(p))
 }
 
 /// C17 at a checkpoint.
